@@ -559,6 +559,9 @@ func (self Node) Index(i int) (v Node) {
 	}
 
 	s, e = it.Next(UseNativeSkipForGet)
+	if it.Err != nil {
+		return errNode(meta.ErrRead, "", it.Err)
+	}
 	v = self.slice(s, e, self.et)
 ret:
 	// it.Recycle()
